@@ -35,7 +35,11 @@ func (o *Obligation) query(prelude string, wantModel bool) string {
 		b.WriteString("(set-option :produce-models true)\n")
 	}
 	b.WriteString(prelude)
+	used := usedSymbols(o)
 	for _, d := range o.ex.decls[:o.NDecl] {
+		if !used[declName(d)] {
+			continue
+		}
 		b.WriteString(d)
 		b.WriteByte('\n')
 	}
@@ -145,6 +149,40 @@ func firstLines(s string, n int) string {
 	return strings.Join(ls, " | ")
 }
 
+// quickPass: one fast solver alone on every obligation, wide parallelism; what it leaves is raced.
+func quickPass(obls []*Obligation, prelude, dir string, opts *Options) {
+	var wg sync.WaitGroup
+	sem := make(chan struct{}, 15)
+	t := 2
+	if opts.Timeout < t {
+		t = opts.Timeout
+	}
+	for i, o := range obls {
+		wg.Add(1)
+		sem <- struct{}{}
+		go func(i int, o *Obligation) {
+			defer wg.Done()
+			defer func() { <-sem }()
+			file := filepath.Join(dir, fmt.Sprintf("p%05d.smt2", i))
+			if err := os.WriteFile(file, []byte(o.query(prelude, false)), 0o644); err != nil {
+				return
+			}
+			defer os.Remove(file)
+			tt := t
+			if o.MustFail {
+				tt = 1 // vacuity probes are expected NOT to be provable: a short look is enough
+			}
+			st, out, d := runSolver(context.Background(), solvers[0], file, tt, opts.Seed)
+			if st == "unsat" {
+				o.Status, o.Solver, o.Time = "proved", solvers[0].name, d
+			} else if o.MustFail {
+				o.Status, o.Solver, o.Time, o.Output = "unknown", solvers[0].name, d, firstLines(out, 1)
+			}
+		}(i, o)
+	}
+	wg.Wait()
+}
+
 func dischargeAll(obls []*Obligation, prelude string, opts *Options) {
 	dir := opts.KeepSMT
 	if dir == "" {
@@ -161,9 +199,13 @@ func dischargeAll(obls []*Obligation, prelude string, opts *Options) {
 	if jobs <= 0 {
 		jobs = 8
 	}
+	quickPass(obls, prelude, dir, opts)
 	var wg sync.WaitGroup
 	sem := make(chan struct{}, jobs)
 	for i, o := range obls {
+		if o.Status == "proved" || o.MustFail {
+			continue
+		}
 		wg.Add(1)
 		sem <- struct{}{}
 		go func(i int, o *Obligation) {
@@ -313,4 +355,44 @@ func parseGetValue(out string) map[string]string {
 		res[name] = strings.Join(strings.Fields(val), " ")
 	}
 	return res
+}
+
+// declName extracts the |name| of "(declare-const |name| sort)".
+func declName(d string) string {
+	i := strings.Index(d, "|")
+	if i < 0 {
+		return ""
+	}
+	j := strings.Index(d[i+1:], "|")
+	if j < 0 {
+		return ""
+	}
+	return d[i+1 : i+1+j]
+}
+
+// usedSymbols: quoted symbols occurring in the path condition or the goal.
+func usedSymbols(o *Obligation) map[string]bool {
+	used := map[string]bool{}
+	scan := func(t string) {
+		for {
+			i := strings.Index(t, "|")
+			if i < 0 {
+				return
+			}
+			j := strings.Index(t[i+1:], "|")
+			if j < 0 {
+				return
+			}
+			used[t[i+1:i+1+j]] = true
+			t = t[i+j+2:]
+		}
+	}
+	for _, a := range o.PC {
+		scan(a)
+	}
+	scan(o.Goal)
+	for _, w := range o.witness {
+		scan(w.Term)
+	}
+	return used
 }
